@@ -21,7 +21,7 @@ open Pool
     model lemma that justifies it where the model carries the field. -/
 def exempt : List (String × String × String) := [
   ("handlerCtx", "start",
-    "written by binding() (and by Push) before every read (recordCost / run log): C20_ctx_start_written_before_read, hypothesis startSafe of C20_ctx_recycled_like_fresh_partial"),
+    "written by binding() (and by Push) before every read (recordCost / run log): C20_ctx_start_written_before_read, hypothesis startSafe of C20_ctx_recycled_like_fresh"),
   ("Args", "buf",
     "scratch buffer: Parse and QueryString overwrite it from index 0 before they use it: C20_args_buf_scratch"),
   ("argsKV", "key",
@@ -102,75 +102,60 @@ theorem C20_message_reset_fresh (reg : Registry) (limit : Nat) (m : PMsg) :
     (m.reset).obs reg limit = PMsg.fresh.obs reg limit :=
   (msg_reset_sim m).obs reg limit
 
-/-- **C20 for messages, all histories**: for every operation sequence of the previous user (including
-    panicking ones), after `PutMessage`/`GetMessage` every operation sequence of the next user returns
-    the same results and leaves the same observations (all getters + packed bytes, after every single
-    call) as on a new message — provided no `Meta().ParseBytes` call of the *next* user panics.
-    Full statement (without that proviso) is false on the model and on the code: see
-    `C20_args_stale_unobservable_witness`. -/
-theorem C20_message_recycled_like_fresh_partial (reg : Registry) (limit : Nat) (prev next : List MOp)
-    (h : ∀ op ∈ next, op.panics = false) :
+/-- **C20 for messages, all histories**: for every operation sequence of the previous user, after
+    `PutMessage`/`GetMessage` EVERY operation sequence of the next user returns the same results and
+    leaves the same observations (all getters + packed bytes, after every single call) as on a new
+    message. No proviso: `Meta().ParseBytes` has no panic point (256-entry `hex2intTable`), so no
+    call of the next user can stop half-way through a stale slot. -/
+theorem C20_message_recycled_like_fresh (reg : Registry) (limit : Nat) (prev next : List MOp) :
     ((PMsg.fresh.exec reg limit prev).reset).run reg limit next = PMsg.fresh.run reg limit next :=
-  msg_run_sim reg limit next (msg_reset_sim _) h
-
-example : ∀ op ∈ [MOp.mdOp (.add [1] [2]), .mdOp (.parse [97, 61, 98]), .setSeq 5, .pack], op.panics = false := by
-  decide
+  msg_run_sim reg limit next (msg_reset_sim _)
 
 /-! ## metadata containers -/
 
 /-- **C20 for `utils.Args`, all histories**: for EVERY previous-use operation sequence, then `Reset`
-    (what `ReleaseArgs`, `message.Reset` and `CopyTo` do), then ANY operation sequence in which no
-    `ParseBytes/Parse` panics, the result of every call and `Len`, the `VisitAll` sequence and
-    `QueryString` after every call equal those of a new `Args` given the same second sequence: the
-    stale slots (old key/value buffers behind the length) and the scratch buffer are never read
-    before they are overwritten. Proof: simulation (visible slots equal, stale part arbitrary),
-    induction over the operation list.
-    Full statement (any second sequence) is refuted by `C20_args_stale_unobservable_witness`. -/
-theorem C20_args_stale_unobservable_partial (prev next : List AOp)
-    (h : ∀ op ∈ next, PArgs.opPanics op = false) :
+    (what `ReleaseArgs`, `message.Reset` and `CopyTo` do), then ANY operation sequence (`ParseBytes`
+    / `Parse` of arbitrary bytes included), the result of every call and `Len`, the `VisitAll`
+    sequence and `QueryString` after every call equal those of a new `Args` given the same second
+    sequence: the stale slots (old key/value buffers behind the length) and the scratch buffer are
+    never read before they are overwritten. Proof: simulation (visible slots equal, stale part
+    arbitrary), induction over the operation list. -/
+theorem C20_args_stale_unobservable (prev next : List AOp) :
     ((PArgs.fresh.exec prev).reset).run next = PArgs.fresh.run next :=
-  args_run_sim next (a := (PArgs.fresh.exec prev).reset) (f := PArgs.fresh) rfl h
-
-example : ∀ op ∈ [AOp.add [107] [118], .parse [37, 52, 49, 61, 37], .del [107], .query], PArgs.opPanics op = false := by
-  decide
+  args_run_sim next (a := (PArgs.fresh.exec prev).reset) (f := PArgs.fresh) rfl
 
 /-- the same from *any* state of the stale storage, not only reachable ones. -/
-theorem C20_args_any_stale (live stale stale' : List KV) (buf buf' : Bytes) (next : List AOp)
-    (h : ∀ op ∈ next, PArgs.opPanics op = false) :
+theorem C20_args_any_stale (live stale stale' : List KV) (buf buf' : Bytes) (next : List AOp) :
     (PArgs.mk live stale buf).run next = (PArgs.mk live stale' buf').run next :=
-  args_run_sim next (a := ⟨live, stale, buf⟩) (f := ⟨live, stale', buf'⟩) rfl h
+  args_run_sim next (a := ⟨live, stale, buf⟩) (f := ⟨live, stale', buf'⟩) rfl
 
-/-- **Genuine exception (witness)**: a `ParseBytes` that panics (`%` followed within two bytes by
-    `0xff`: `hex2intTable` has 255 entries) leaves the slot it was writing inside `a.args`; on a
-    recycled `Args` that slot still holds the previous user's pair. Previous user: `Add("k","v")`;
-    `Reset`; next user: `ParseBytes("%\xff\x00")` (recovered) — `Len`/`VisitAll` show `k=v`, a new
-    `Args` shows one empty pair. -/
-theorem C20_args_stale_unobservable_witness :
-    ∃ prev next : List AOp,
-      ((PArgs.fresh.exec prev).reset).run next ≠ PArgs.fresh.run next ∧
-      (((PArgs.fresh.exec prev).reset).run next).map (·.2.pairs) = [[([107], [118])]] :=
-  ⟨[.add [107] [118]], [.parse [37, 255, 0]], by decide⟩
+/-- the input that used to leave a stale slot visible (`%` followed within two bytes by `0xff`,
+    formerly an index-out-of-range panic between `allocArg` and `releaseArg`): previous user
+    `Add("k","v")`; `Reset`; next user `ParseBytes("%\xff\x00")` — the call returns and `VisitAll`
+    shows the one pair decoded from the input (`%\xff\x00` is not a valid escape, the bytes are
+    kept), exactly as on a new `Args`. -/
+theorem C20_args_parse_ff_regression :
+    ((PArgs.fresh.exec [.add [107] [118]]).reset).run [.parse [37, 255, 0]] =
+      PArgs.fresh.run [.parse [37, 255, 0]] ∧
+    (((PArgs.fresh.exec [.add [107] [118]]).reset).run [.parse [37, 255, 0]]).map (fun r => (r.1, r.2.pairs)) =
+      [(Ret.unit, [([37, 255, 0], [])])] := by
+  decide
 
-/-- the panic itself does not depend on the object: a call panics on a recycled `Args` iff it
-    panics on a new one (so the difference above is only visible to a caller that recovers). -/
-theorem C20_args_panic_same (a f : PArgs) (b : Bytes) : (a.parseBytes b).2 = (f.parseBytes b).2 := by
-  rw [parseBytes_panics, parseBytes_panics]
+/-- `ParseBytes` / `Parse` return on every input and every object state (no panic outcome). -/
+theorem C20_args_parse_returns (a : PArgs) (b : Bytes) :
+    (a.step (.parse b)).2 = .unit ∧ (a.step (.parseStr b)).2 = .unit := ⟨rfl, rfl⟩
 
 /-- exempt `Args.buf`: what `QueryString` returns and what `Parse` leaves do not depend on the
     previous content of the scratch buffer. -/
 theorem C20_args_buf_scratch (a : PArgs) (buf' : Bytes) (s : Bytes) :
     ({ a with buf := buf' }.queryString).2 = a.queryString.2 ∧
-    ({ a with buf := buf' }.parseStr s).1.live = (a.parseStr s).1.live ∧
-    ({ a with buf := buf' }.parseStr s).1.buf = s := by
-  refine ⟨rfl, ?_, ?_⟩
-  · rfl
-  · simp only [PArgs.parseStr, PArgs.parseBytes]; split <;> rfl
+    ({ a with buf := buf' }.parseStr s).live = (a.parseStr s).live ∧
+    ({ a with buf := buf' }.parseStr s).buf = s := ⟨rfl, rfl, rfl⟩
 
 /-- exempt `argsKV.key/value`: the slot `allocArg` hands out is completely overwritten by
-    `appendArg`, and by `argsScanner.next` whenever it returns. -/
+    `appendArg`, and by `argsScanner.next` (which always returns). -/
 theorem C20_args_stale_slot_overwritten (a : PArgs) (k v : Bytes) (old old' : KV) (b : Bytes) :
-    (a.appendArg k v).live = a.live ++ [(k, v)] ∧
-    ((scanNext old b).panicked = false → (scanNext old b).kv = (scanNext old' b).kv) :=
+    (a.appendArg k v).live = a.live ++ [(k, v)] ∧ (scanNext old b).kv = (scanNext old' b).kv :=
   ⟨rfl, scanNext_kv old old' b⟩
 
 /-! ## transfer pipes and byte buffers -/
@@ -209,17 +194,18 @@ theorem C20_ctx_start_written_before_read (reg : Registry) (limit : Nat) (c : PC
 
 /-- **C20 for handler contexts, all histories**: for every previous use of the context, after
     `getContext` every operation sequence of the next user gives the same results and observations
-    as on a new context, provided no metadata parse of the next user panics and `start` is written
-    (`binding` or `Push`) before `recordCost` reads it (`startSafe`; true for the read loop with the
-    raw protocol: `handle()` runs only after `UnmarshalBody` called `binding`). -/
-theorem C20_ctx_recycled_like_fresh_partial (reg : Registry) (limit : Nat) (prev next : List COp) (s s' : Nat)
-    (sw sw' : List (Nat × Nat)) (hp : ∀ op ∈ next, op.panics = false) (hs : startSafe false next = true) :
+    as on a new context, provided `start` is written (`binding` or `Push`) before `recordCost` reads
+    it (`startSafe`; true for the read loop with the raw protocol: `handle()` runs only after
+    `UnmarshalBody` called `binding`; without it: `C20_ctx_start_witness`). Metadata parses need no
+    proviso any more. -/
+theorem C20_ctx_recycled_like_fresh (reg : Registry) (limit : Nat) (prev next : List COp) (s s' : Nat)
+    (sw sw' : List (Nat × Nat)) (hs : startSafe false next = true) :
     (((PCtx.fresh.acquire s' sw').exec reg limit prev).acquire s sw).run reg limit next =
       (PCtx.fresh.acquire s sw).run reg limit next :=
-  ctx_run_sim reg limit next (ctx_acquire_sim _ s sw) hp hs
+  ctx_run_sim reg limit next (ctx_acquire_sim _ s sw) hs
 
-example : (∀ op ∈ [COp.binding 5 1, .outOp (.mdOp (.add [1] [2])), .swapStore 1 2, .recordCost 9], op.panics = false) ∧
-    startSafe false [COp.binding 5 1, .outOp (.mdOp (.add [1] [2])), .swapStore 1 2, .recordCost 9] = true := by
+example : startSafe false [COp.binding 5 1, .outOp (.mdOp (.add [1] [2])), .inOp (.mdOp (.parse [37, 255, 0])),
+    .swapStore 1 2, .recordCost 9] = true := by
   decide
 
 /-- the empty filter registry. -/
